@@ -100,7 +100,7 @@ class Ctx:
             raise Infra("harness does not build against the working tree:\n" + r.stderr[-3000:])
         self.drive_bin = os.path.join(self.scratch, "drive")
 
-    def apply_shims(self, only="sync,time,golang.org/x/sync/singleflight", probes=None):
+    def apply_shims(self, only="sync,time,golang.org/x/sync/singleflight", probes=None, singleflight=None):
         """DESIGN section 5: copy the shim packages into the scratch copy as zzshim/... and redirect the
         imports of the library (never of /repo itself).  Any failure is an infrastructure error."""
         g = os.path.join(self.scratch, "gogu")
@@ -108,6 +108,13 @@ class Ctx:
         if os.path.exists(z):
             shutil.rmtree(z)
         shutil.copytree(os.path.join(VERIF, "shim"), z)
+        if singleflight:
+            # the cached source of x/sync/singleflight becomes a package of the scratch module so that
+            # its Mutex/WaitGroup are controllable too (DESIGN section 5)
+            os.makedirs(os.path.join(z, "singleflight"))
+            src = open(singleflight).read().replace('"sync"', 'sync "github.com/esimov/gogu/zzshim/vsync"')
+            with open(os.path.join(z, "singleflight", "singleflight.go"), "w") as f:
+                f.write(src)
         env = dict(os.environ, **GOENV)
         tb = os.path.join(self.scratch, "rewrite")
         if not os.path.exists(tb):
@@ -181,6 +188,18 @@ class Ctx:
         with open(pf, "w") as f:
             json.dump(path, f, separators=(",", ":"))
         cmd = [self.drive_bin, "-p", driver, "-var", variant, "-replay", "@" + pf]
+        if out:
+            cmd += ["-replay-out", out]
+        r = subprocess.run(cmd, capture_output=True, text=True, timeout=300)
+        if r.returncode != 0:
+            raise Infra("replay failed: " + r.stderr[-1000:])
+        return json.loads(r.stdout.strip().split("\n")[-1])
+
+    def replay_raw(self, driver, desc, out=None):
+        pf = tempfile.mktemp(prefix="sched-", suffix=".json", dir=self.scratch)
+        with open(pf, "w") as f:
+            json.dump(desc, f, separators=(",", ":"))
+        cmd = [self.drive_bin, "-p", driver, "-replay", "@" + pf]
         if out:
             cmd += ["-replay-out", out]
         r = subprocess.run(cmd, capture_output=True, text=True, timeout=300)
@@ -353,6 +372,44 @@ def write_replay(ctx, driver, variant, module, path, observed, note=""):
     return p
 
 
+def write_replay_body(ctx, body):
+    rd = os.path.join(EVID, "replays")
+    os.makedirs(rd, exist_ok=True)
+    body = dict(body, property=ctx.prop)
+    h = hashlib.sha1(json.dumps(body, sort_keys=True).encode()).hexdigest()[:10]
+    p = os.path.join(rd, "%s-%s.json" % (ctx.prop, h))
+    with open(p, "w") as f:
+        json.dump(body, f, indent=1)
+    return p
+
+
+def leaf_below(nodes, i):
+    """some leaf of the subtree rooted at line i (1-based)"""
+    while nodes[i - 1]["kids"]:
+        i = nodes[i - 1]["kids"][0]
+    return i
+
+
+def sched_reproducer(driver):
+    """Reproduction for the scheduler-based drivers: a recorded execution ends in a node whose op.x holds the
+    program and the schedule; re-run exactly that schedule on the real code and validate the new recording."""
+    def rep(ctx, f, nodes, target, module, cfg):
+        leaf = nodes[leaf_below(nodes, target) - 1]
+        x = leaf["op"].get("x")
+        if not x:
+            raise Infra("no schedule recorded below line %d of %s" % (target, f))
+        for attempt in range(3):
+            out = os.path.join(ctx.scratch, "t", "confirm-%s-%d-%d.ndjson" % (driver, target, attempt))
+            now = ctx.replay_raw(driver, x, out)
+            rr = ctx.tlc(module, cfg=cfg, env={"TRACE": out}, workers=1, xmx="1g")
+            if rr["rc"] == 12 and rr["mismatches"]:
+                return dict(kind="sched", driver=driver, module=module, sched=x), now
+            if rr["rc"] != 0 or rr["errors"]:
+                raise Infra("re-validation failed: " + rr["out"][-1500:])
+        return None
+    return rep
+
+
 def violation(ctx, replay):
     ctx.violations += 1
     if replay in ctx.kf_printed:
@@ -392,8 +449,11 @@ def write_evidence(ctx, level="model_checking", extra_cov=None, exhaustive=None)
 
 
 # -------------------------------------------------- generic tree-trace check
-def check_recordings(ctx, driver, module, files, open_kf, variant_of=lambda f: "lin" if ".lin." in f else "tree"):
+def check_recordings(ctx, driver, module, files, open_kf, variant_of=lambda f: "lin" if ".lin." in f else "tree",
+                     reproducer=None):
     """Validate recorded trace files against `module` (an XTrace module).
+    `reproducer(ctx, file, nodes, target, module, cfg)` -> (replay description, observed) or None re-executes the
+    offending execution on the real code (default: the operation path from the root).
     Handles MISMATCH -> replay on the real code -> VIOLATION, KFHIT accounting and
     the node-count self check.  Returns number of violations."""
     cfg = ctx.trace_cfg(module, [k["id"] for k in open_kf])
@@ -411,6 +471,21 @@ def check_recordings(ctx, driver, module, files, open_kf, variant_of=lambda f: "
             # reproduce: re-execute the path on the real code and validate that recording again
             # (exact equality with the first recording is not required: Go's map iteration and
             # Shuffle are legitimately nondeterministic; what must reproduce is the rejection)
+            if reproducer:
+                rep = reproducer(ctx, f, nodes, target, module, cfg)
+                if rep is None:
+                    raise Infra("mismatch at line %d of %s did not reproduce on re-execution (recorded %s)"
+                                % (target, f, json.dumps(rec)[:800]))
+                body, observed = rep
+                rp = write_replay_body(ctx, body)
+                log("unexplained execution at line %d of %s: %s observed=%s" % (
+                    target, os.path.basename(f), json.dumps(body, separators=(",", ":"))[:1500],
+                    json.dumps(observed, separators=(",", ":"))[:1500]))
+                violation(ctx, rp)
+                nviol += 1
+                ctx.states += r["distinct"]
+                ctx.transitions += r["generated"]
+                continue
             confirmed = None
             for attempt in range(3):
                 out = os.path.join(ctx.scratch, "t", "confirm-%d-%d.lin.ndjson" % (target, attempt))
@@ -492,12 +567,26 @@ def probe_known_findings(ctx, module, open_kf):
 def run_replay_file(ctx, rf):
     """./check <id> --replay file : re-execute against the current tree."""
     body = json.load(open(rf))
-    if body.get("kind") != "oppath":
+    if body.get("kind") not in ("oppath", "sched"):
         raise Infra("unknown replay kind in " + rf)
     if ctx.prepare:
         ctx.prepare(ctx)
     else:
         ctx.setup()
+    if body["kind"] == "sched":
+        out = os.path.join(ctx.scratch, "t", "replay.ndjson")
+        now = ctx.replay_raw(body["driver"], body["sched"], out)
+        opn, _ = known_findings(ctx.prop)
+        cfg = ctx.trace_cfg(body["module"], [k["id"] for k in opn])
+        r = ctx.tlc(body["module"], cfg=cfg, env={"TRACE": out}, workers=1, xmx="1g")
+        print("replayed schedule: %s" % json.dumps(body["sched"], separators=(",", ":")))
+        print("observed now : %s" % json.dumps(now, separators=(",", ":"))[:3000])
+        if r["rc"] == 12 and r["mismatches"]:
+            violation(ctx, rf)
+            return 1
+        ctx.require_ok(r, "replay")
+        print("the replayed execution is a behaviour of the specification on the current tree")
+        return 0
     out = os.path.join(ctx.scratch, "t", "replay.lin.ndjson")
     now = ctx.replay_path(body["driver"], body["var"], body["path"], out=out)
     opn, _ = known_findings(ctx.prop)
